@@ -47,11 +47,12 @@ theorem prevok_head {c : Core} {hd : Bool} (g : KGood cfg c hd) {k : Key} (hpos 
   have : c.key 0 = ⟨0, 0⟩ := h0
   refine ⟨g.head_mem l, by rw [this]; exact Nat.zero_le _, fun _ => by rw [this]; exact hpos⟩
 
-theorem k_idle (hI : KInv cfg s) (hpc : th.pc = .idle) : StepOkK cfg s t (thStep cfg s t th) := by
-  unfold thStep
+theorem k_idle (hI : KInv cfg s) (hpc : th.pc = .idle) : StepOkK cfg s t (thStepCore cfg s t th) := by
+  unfold thStepCore
   simp only [hpc]
   split
   · exact stepk_local hI rfl (fun h => h) (Nat.le_refl _) ⟨rfl, rfl⟩ (by simp) (by simp [TInvK, hpc])
+  · exact stepk_local hI rfl (fun h => h) (Nat.le_refl _) ⟨rfl, rfl⟩ (by simp) (by simp [TInvK, Th.finish])
   · rename_i k h rest hops
     split
     · refine stepk_local hI rfl (fun h => h) (Nat.le_refl _) ⟨rfl, rfl⟩ ?_ (by simp [TInvK, Th.finish])
@@ -85,8 +86,8 @@ theorem k_idle (hI : KInv cfg s) (hpc : th.pc = .idle) : StepOkK cfg s t (thStep
     exact ⟨trinv_start (hI.g.lv 0), trivial, trivial⟩
 
 theorem k_ldHead (hI : KInv cfg s) (hpc : th.pc = .ldHead) (h : Own s.core t th.new th.k th.hgt ∧ NotIn s.core th.new 0) :
-    StepOkK cfg s t (thStep cfg s t th) := by
-  unfold thStep
+    StepOkK cfg s t (thStepCore cfg s t th) := by
+  unfold thStepCore
   simp only [hpc]
   split
   · rename_i hh
@@ -94,8 +95,8 @@ theorem k_ldHead (hI : KInv cfg s) (hpc : th.pc = .ldHead) (h : Own s.core t th.
   · exact stepk_local hI rfl (fun h => h) (Nat.le_refl _) ⟨rfl, rfl⟩ (by simp) (by simp only [TInvK]; exact h)
 
 theorem k_casHead (hI : KInv cfg s) (hpc : th.pc = .casHead) (h : Own s.core t th.new th.k th.hgt ∧ NotIn s.core th.new 0) :
-    StepOkK cfg s t (thStep cfg s t th) := by
-  unfold thStep
+    StepOkK cfg s t (thStepCore cfg s t th) := by
+  unfold thStepCore
   simp only [hpc]
   split
   · rename_i hh
@@ -103,8 +104,8 @@ theorem k_casHead (hI : KInv cfg s) (hpc : th.pc = .casHead) (h : Own s.core t t
   · exact stepk_local hI rfl (fun _ => rfl) (Nat.le_refl _) ⟨rfl, rfl⟩ (by simp) (by simp only [TInvK]; exact ⟨h.1, h.2, trivial⟩)
 
 theorem k_ldMaxh (hI : KInv cfg s) (hpc : th.pc = .ldMaxh)
-    (h : Own s.core t th.new th.k th.hgt ∧ NotIn s.core th.new 0 ∧ s.headSet = true) : StepOkK cfg s t (thStep cfg s t th) := by
-  unfold thStep
+    (h : Own s.core t th.new th.k th.hgt ∧ NotIn s.core th.new 0 ∧ s.headSet = true) : StepOkK cfg s t (thStepCore cfg s t th) := by
+  unfold thStepCore
   simp only [hpc]
   obtain ⟨h1, h2, h3⟩ := h
   have hrec : ∀ lo, Rec cfg s.core th.k th.hgt (fun _ => 0) (fun _ => none) lo := by
@@ -159,8 +160,8 @@ theorem ins_key {k : Key} (hpos : 0 < k.ok) (huk : k.uk = 0) : (⟨k.ok - 1 + 1,
 
 theorem k_desc (hI : KInv cfg s) (hpc : th.pc = .desc)
     (h : Own s.core t th.new th.k th.hgt ∧ NotIn s.core th.new 0 ∧ PrevOk cfg s.core th.k th.lvl th.prev ∧
-      Rec cfg s.core th.k th.hgt th.prevs th.currs (th.lvl + 1) ∧ s.headSet = true) : StepOkK cfg s t (thStep cfg s t th) := by
-  unfold thStep
+      Rec cfg s.core th.k th.hgt th.prevs th.currs (th.lvl + 1) ∧ s.headSet = true) : StepOkK cfg s t (thStepCore cfg s t th) := by
+  unfold thStepCore
   simp only [hpc]
   obtain ⟨h1, h2, h3, h4, h5⟩ := h
   -- what is recorded when the level is done
@@ -320,8 +321,8 @@ theorem kgood_linkrec {c : Core} {hd : Bool} (g : KGood cfg c hd) (l : Nat) (p n
 theorem k_setNext0 (hI : KInv cfg s) (hpc : th.pc = .setNext0)
     (h : Own s.core t th.new th.k th.hgt ∧ NotIn s.core th.new 0 ∧ Rec cfg s.core th.k th.hgt th.prevs th.currs 0 ∧ 0 < th.hgt ∧
       (cfg.multi = false → ∀ c, th.currs 0 = some c → th.k.ok < (s.core.key c).ok) ∧ s.headSet = true) :
-    StepOkK cfg s t (thStep cfg s t th) := by
-  unfold thStep
+    StepOkK cfg s t (thStepCore cfg s t th) := by
+  unfold thStepCore
   simp only [hpc]
   obtain ⟨h1, h2, h3, h4, h5, h6⟩ := h
   have he := ext_setnext (t := t) 0 th.new (th.currs 0) (upd s.core.idx th.new (if cfg.multi then s.core.idx (th.prevs 0) + 1 else s.core.idx th.new)) h1.own
@@ -335,8 +336,8 @@ theorem k_setNext0 (hI : KInv cfg s) (hpc : th.pc = .setNext0)
 theorem k_cas0 (hI : KInv cfg s) (hpc : th.pc = .cas0)
     (h : Own s.core t th.new th.k th.hgt ∧ NotIn s.core th.new 0 ∧ Rec cfg s.core th.k th.hgt th.prevs th.currs 0 ∧ 0 < th.hgt ∧
       (cfg.multi = false → ∀ c, th.currs 0 = some c → th.k.ok < (s.core.key c).ok) ∧
-      s.core.next 0 th.new = th.currs 0 ∧ s.headSet = true) : StepOkK cfg s t (thStep cfg s t th) := by
-  unfold thStep
+      s.core.next 0 th.new = th.currs 0 ∧ s.headSet = true) : StepOkK cfg s t (thStepCore cfg s t th) := by
+  unfold thStepCore
   simp only [hpc]
   obtain ⟨h1, h2, h3, h4, h5, h6, h7⟩ := h
   obtain ⟨hp, hc⟩ := h3 0 (Nat.le_refl _) h4
@@ -388,8 +389,8 @@ theorem upper_start {c : Core} {hd : Bool} {mh : Nat} (h1 : Own c t th.new th.k 
 
 theorem k_ldMaxh2 (hI : KInv cfg s) (hpc : th.pc = .ldMaxh2)
     (h : Own s.core t th.new th.k th.hgt ∧ InBelow s.core th.new 1 ∧ NotIn s.core th.new 1 ∧
-      Rec cfg s.core th.k th.hgt th.prevs th.currs 1) : StepOkK cfg s t (thStep cfg s t th) := by
-  unfold thStep
+      Rec cfg s.core th.k th.hgt th.prevs th.currs 1) : StepOkK cfg s t (thStepCore cfg s t th) := by
+  unfold thStepCore
   simp only [hpc]
   obtain ⟨h1, h2, h3, h4⟩ := h
   split
@@ -401,8 +402,8 @@ theorem k_ldMaxh2 (hI : KInv cfg s) (hpc : th.pc = .ldMaxh2)
 
 theorem k_casMaxh (hI : KInv cfg s) (hpc : th.pc = .casMaxh)
     (h : Own s.core t th.new th.k th.hgt ∧ InBelow s.core th.new 1 ∧ NotIn s.core th.new 1 ∧
-      Rec cfg s.core th.k th.hgt th.prevs th.currs 1 ∧ th.mh < th.hgt) : StepOkK cfg s t (thStep cfg s t th) := by
-  unfold thStep
+      Rec cfg s.core th.k th.hgt th.prevs th.currs 1 ∧ th.mh < th.hgt) : StepOkK cfg s t (thStepCore cfg s t th) := by
+  unfold thStepCore
   simp only [hpc]
   obtain ⟨h1, h2, h3, h4, h5⟩ := h
   split
@@ -420,8 +421,8 @@ theorem k_casMaxh (hI : KInv cfg s) (hpc : th.pc = .casMaxh)
 theorem k_setNextU (hI : KInv cfg s) (hpc : th.pc = .setNextU)
     (h : Own s.core t th.new th.k th.hgt ∧ 1 ≤ th.level ∧ th.level < th.hgt ∧ InBelow s.core th.new th.level ∧
       NotIn s.core th.new th.level ∧ Rec cfg s.core th.k th.hgt th.prevs th.currs th.level) :
-    StepOkK cfg s t (thStep cfg s t th) := by
-  unfold thStep
+    StepOkK cfg s t (thStepCore cfg s t th) := by
+  unfold thStepCore
   simp only [hpc]
   obtain ⟨h1, h2, h3, h4, h5, h6⟩ := h
   have he := ext_setnext (t := t) th.level th.new (th.currs th.level) s.core.idx h1.own
@@ -455,8 +456,8 @@ theorem not_advnode_ge {multi : Bool} {ck k : Key} {ci ni : Nat} (h : advNode mu
 theorem k_casU (hI : KInv cfg s) (hpc : th.pc = .casU)
     (h : Own s.core t th.new th.k th.hgt ∧ 1 ≤ th.level ∧ th.level < th.hgt ∧ InBelow s.core th.new th.level ∧
       NotIn s.core th.new th.level ∧ Rec cfg s.core th.k th.hgt th.prevs th.currs th.level ∧
-      s.core.next th.level th.new = th.currs th.level) : StepOkK cfg s t (thStep cfg s t th) := by
-  unfold thStep
+      s.core.next th.level th.new = th.currs th.level) : StepOkK cfg s t (thStepCore cfg s t th) := by
+  unfold thStepCore
   simp only [hpc]
   obtain ⟨h1, h2, h3, h4, h5, h6, h7⟩ := h
   obtain ⟨hp, hc⟩ := h6 th.level (Nat.le_refl _) h3
@@ -499,8 +500,8 @@ theorem k_casU (hI : KInv cfg s) (hpc : th.pc = .casU)
 theorem k_refind (hI : KInv cfg s) (hpc : th.pc = .refind)
     (h : Own s.core t th.new th.k th.hgt ∧ 1 ≤ th.level ∧ th.level < th.hgt ∧ InBelow s.core th.new th.level ∧
       NotIn s.core th.new th.level ∧ Rec cfg s.core th.k th.hgt th.prevs th.currs th.level ∧ th.level ≤ th.lvl ∧
-      th.lvl < th.hgt ∧ PrevOk cfg s.core th.k th.lvl th.prev) : StepOkK cfg s t (thStep cfg s t th) := by
-  unfold thStep
+      th.lvl < th.hgt ∧ PrevOk cfg s.core th.k th.lvl th.prev) : StepOkK cfg s t (thStepCore cfg s t th) := by
+  unfold thStepCore
   simp only [hpc]
   obtain ⟨h1, h2, h3, h4, h5, h6, h7, h8, h9⟩ := h
   have hstop : ∀ cn : Option Node, CurLe s.core th.k cn →
@@ -540,8 +541,8 @@ theorem k_refind (hI : KInv cfg s) (hpc : th.pc = .refind)
     rw [← hx] at this
     exact this
 
-theorem k_szInc (hI : KInv cfg s) (hpc : th.pc = .szInc) : StepOkK cfg s t (thStep cfg s t th) := by
-  unfold thStep
+theorem k_szInc (hI : KInv cfg s) (hpc : th.pc = .szInc) : StepOkK cfg s t (thStepCore cfg s t th) := by
+  unfold thStepCore
   simp only [hpc]
   exact stepk_local hI rfl (fun h => h) (Nat.le_refl _) ⟨rfl, rfl⟩ (by simp) (by simp [TInvK, Th.finish])
 
@@ -574,8 +575,8 @@ theorem lookup_end {c : Core} {hd : Bool} {mh : Nat} (g : KGood cfg c hd) {k : K
         rw [hky] at h2; omega
 
 theorem k_fLdHead (hI : KInv cfg s) (hpc : th.pc = .fLdHead) (h : MustOk s.core s.maxh th.k th.must ∧ th.oldc = none) :
-    StepOkK cfg s t (thStep cfg s t th) := by
-  unfold thStep
+    StepOkK cfg s t (thStepCore cfg s t th) := by
+  unfold thStepCore
   simp only [hpc]
   split
   · refine stepk_local hI rfl (fun h => h) (Nat.le_refl _) ⟨rfl, rfl⟩ (by simp) ?_
@@ -598,8 +599,8 @@ theorem k_fLdHead (hI : KInv cfg s) (hpc : th.pc = .fLdHead) (h : MustOk s.core 
     rw [← hky] at this; simp at this
 
 theorem k_fLdMaxh (hI : KInv cfg s) (hpc : th.pc = .fLdMaxh)
-    (h : MustOk s.core s.maxh th.k th.must ∧ th.oldc = none ∧ th.prev = 0) : StepOkK cfg s t (thStep cfg s t th) := by
-  unfold thStep
+    (h : MustOk s.core s.maxh th.k th.must ∧ th.oldc = none ∧ th.prev = 0) : StepOkK cfg s t (thStepCore cfg s t th) := by
+  unfold thStepCore
   simp only [hpc]
   split
   · rename_i hh
@@ -621,8 +622,8 @@ theorem k_fLdMaxh (hI : KInv cfg s) (hpc : th.pc = .fLdMaxh)
 theorem k_fdesc (hI : KInv cfg s) (hpc : th.pc = .fdesc)
     (h : MustOk s.core s.maxh th.k th.must ∧ th.prev ∈ s.core.chain th.lvl ∧ (s.core.key th.prev).ok < th.k.ok ∧
       (∀ c, th.oldc = some c → th.k.ok < (s.core.key c).ok ∧ c < s.core.fresh)) :
-    StepOkK cfg s t (thStep cfg s t th) := by
-  unfold thStep
+    StepOkK cfg s t (thStepCore cfg s t th) := by
+  unfold thStepCore
   simp only [hpc]
   obtain ⟨h1, h2, h3, h4⟩ := h
   -- the level is finished with `cn` (nothing, or a node whose key is not below the wanted one)
@@ -774,9 +775,9 @@ theorem k_fdesc (hI : KInv cfg s) (hpc : th.pc = .fdesc)
 
 theorem k_tLdHead (hI : KInv cfg s) (hpc : th.pc = .tLdHead)
     (h0 : TrInv (view s.core 0) th.prev th.seen th.snap ∧ th.prev = 0 ∧ th.seen = [0]) :
-    StepOkK cfg s t (thStep cfg s t th) := by
+    StepOkK cfg s t (thStepCore cfg s t th) := by
   obtain ⟨h, hp⟩ := h0
-  unfold thStep
+  unfold thStepCore
   simp only [hpc]
   split
   · exact stepk_local hI rfl (fun h => h) (Nat.le_refl _) ⟨rfl, rfl⟩ (by simp) (by simp only [TInvK]; exact h)
@@ -795,8 +796,8 @@ theorem k_tLdHead (hI : KInv cfg s) (hpc : th.pc = .tLdHead)
       rw [this] at h1'; simp at h1'
 
 theorem k_twalk (hI : KInv cfg s) (hpc : th.pc = .twalk) (h : TrInv (view s.core 0) th.prev th.seen th.snap) :
-    StepOkK cfg s t (thStep cfg s t th) := by
-  unfold thStep
+    StepOkK cfg s t (thStepCore cfg s t th) := by
+  unfold thStepCore
   simp only [hpc]
   split
   · rename_i x hx
@@ -811,7 +812,7 @@ theorem k_twalk (hI : KInv cfg s) (hpc : th.pc = .twalk) (h : TrInv (view s.core
     exact trinv_adv (hI.g.lv 0) h hx
 
 
-theorem k_step_ok (hI : KInv cfg s) (h : TInvK cfg s.core s.headSet s.maxh t th) : StepOkK cfg s t (thStep cfg s t th) := by
+theorem k_step_ok (hI : KInv cfg s) (h : TInvK cfg s.core s.headSet s.maxh t th) : StepOkK cfg s t (thStepCore cfg s t th) := by
   unfold TInvK at h
   cases hpc : th.pc <;> simp only [hpc] at h
   · exact k_idle hI hpc
@@ -853,48 +854,42 @@ theorem kinv_init (cfg : Cfg) (progs : List (List Op)) : KInv cfg (initSt progs)
   subst hp
   simp [TInvK]
 
-theorem kinv_step (cfg : Cfg) (s : St) (t : Tid) (h : KInv cfg s) : KInv cfg (step cfg s t) := by
-  unfold step
-  cases hth : s.ths[t]? with
-  | none => simpa using h
-  | some th =>
-    simp only
-    have so := k_step_ok h (h.tinv t th hth)
-    have hwins : ∀ x ∈ s.core.wins, x ∈ (thStep cfg s t th).st.core.wins := by
-      intro x hx; rw [so.wins]; exact List.mem_append_right _ hx
-    refine ⟨so.kgood, ?_, ?_, ?_⟩
-    · intro u thu hu
-      simp only at hu
-      rw [List.getElem?_set] at hu
-      by_cases hut : t = u
-      · subst hut
-        have hlt : t < s.ths.length := by
-          rcases List.getElem?_eq_some_iff.mp hth with ⟨hl, _⟩; exact hl
-        simp only [hlt, ite_true, Option.some.injEq] at hu
-        subst hu
-        exact so.tinv
-      · simp only [hut, ite_false] at hu
-        exact tinvk_ext h.g so.ext (Ne.symm hut) so.head so.mh (h.tinv u thu hu)
-    · intro e he
-      simp only at he
-      cases hres : (thStep cfg s t th).res with
-      | none =>
-        rw [hres] at he
-        exact resokk_ext h.g so.ext hwins (h.logok e he)
-      | some r =>
-        rw [hres] at he
-        simp only [addLog, List.mem_cons] at he
-        rcases he with he | he
-        · subst he; exact so.res r hres
-        · exact resokk_ext h.g so.ext hwins (h.logok e he)
-    · simp only
-      rw [so.wins, h.wins]
-      cases hres : (thStep cfg s t th).res with
-      | none => simp [addLog]
-      | some r => simp only [addLog]; rw [← List.filterMap_append]; rfl
-
-theorem kinv_reachable (cfg : Cfg) (progs : List (List Op)) (sched : List Tid) : KInv cfg ((sys cfg progs).run sched) :=
-  Sys.inv_run (sys cfg progs) (KInv cfg) (kinv_init cfg progs) (fun s t h => kinv_step cfg s t h) sched
+/-- the invariant survives any step whose outcome satisfies `StepOkK` -/
+theorem kinv_of_stepok {cfg : Cfg} {s : St} {t : Tid} {th : Th} {o : Out} (h : KInv cfg s) (hth : s.ths[t]? = some th)
+    (so : StepOkK cfg s t o) :
+    KInv cfg { o.st with ths := s.ths.set t o.th, log := addLog s.log t o.res } := by
+  have hwins : ∀ x ∈ s.core.wins, x ∈ o.st.core.wins := by
+    intro x hx; rw [so.wins]; exact List.mem_append_right _ hx
+  refine ⟨so.kgood, ?_, ?_, ?_⟩
+  · intro u thu hu
+    simp only at hu
+    rw [List.getElem?_set] at hu
+    by_cases hut : t = u
+    · subst hut
+      have hlt : t < s.ths.length := by
+        rcases List.getElem?_eq_some_iff.mp hth with ⟨hl, _⟩; exact hl
+      simp only [hlt, ite_true, Option.some.injEq] at hu
+      subst hu
+      exact so.tinv
+    · simp only [hut, ite_false] at hu
+      exact tinvk_ext h.g so.ext (Ne.symm hut) so.head so.mh (h.tinv u thu hu)
+  · intro e he
+    simp only at he
+    cases hres : o.res with
+    | none =>
+      rw [hres] at he
+      exact resokk_ext h.g so.ext hwins (h.logok e he)
+    | some r =>
+      rw [hres] at he
+      simp only [addLog, List.mem_cons] at he
+      rcases he with he | he
+      · subst he; exact so.res r hres
+      · exact resokk_ext h.g so.ext hwins (h.logok e he)
+  · simp only
+    rw [so.wins, h.wins]
+    cases hres : o.res with
+    | none => simp [addLog]
+    | some r => simp only [addLog]; rw [← List.filterMap_append]; rfl
 
 end SkipList
 end TbbVerif.C12
